@@ -378,7 +378,7 @@ func acceptableToConsensus(lab *rhplab.Lab, id types.FileContractID, latest type
 	// the lab's own copy of the on-chain element (proof kept current across reorgs)
 	_, fce, ok := lab.Element(id)
 	if !ok {
-		return inconclusive("no on-chain element for %v", id)
+		return nil // the contract's creation is not (or no longer) confirmed: nothing to revise on chain yet
 	}
 	if latest.RevisionNumber == fce.V2FileContract.RevisionNumber {
 		return nil // nothing to broadcast
